@@ -84,12 +84,20 @@ CONC_RULE = ('a seeded set-up history (3-15 requests) builds a state; then '
              'scheduler, pre-emption only before a top-level BEGIN '
              '(transaction granularity). Schedules: uniform random, 0-3 '
              'forced pre-emptions, or targeted (park A before its k-th '
-             'transaction, run the others, resume A). distinct_nontrivial '
+             'transaction, run the others, resume A). Each batch is run '
+             'under several schedules (quick: 5 drawn; thorough: EVERY '
+             'single-pre-emption schedule - each request parked before each '
+             'of its transactions, the others run in both orders - plus 4 '
+             'uniform ones); the serial replays are computed once per batch. '
+             'evaluations = batches; schedules executed are in '
+             'reach_probes.schedules_run. distinct_nontrivial '
              'counts DISTINCT (request kinds, schedule signature = sequence '
              'of (task, transaction ordinal), statuses) triples among runs '
              'in which at least one context switch separated two '
              'transactions of one request.')
-CONC_N = {'quick': 2400, 'thorough': 40000}
+CONC_N = {'quick': 1200, 'thorough': 8000}
+CONC_SCHED = {'quick': {'n_schedules': 5},
+              'thorough': {'n_schedules': 4, 'enumerate': True}}
 CONC_ASSUME = [
     'interleavings are at database-transaction granularity with each '
     'transaction atomic and isolated (as the property states); weaker '
@@ -102,7 +110,8 @@ def _conc_plan(prop, foci, text):
     def plan(tier):
         n = CONC_N[tier] // len(foci)
         return {
-            'runs': [('conc', {'focus': f}, n) for f in foci],
+            'runs': [('conc', dict(CONC_SCHED[tier], focus=f), n)
+                     for f in foci],
             'level': 'exploration',
             'rule': CONC_RULE + ' ' + text,
             'assumptions': COMMON_ASSUMPTIONS + CONC_ASSUME,
